@@ -154,6 +154,8 @@ def stmt_expr(beta: Beta, s, site_expr: str, reflect: bool, x_expr: str | None =
     if op == "in":
         return f"{x} in {S}"
     k = repr(beta.key(s["k"]))
+    if op == "dget":
+        return f"{S}[{k}]"
     if op == "deq":
         return f"{S}[{k}] == {x}" if reflect else f"{x} == {S}[{k}]"
     if op == "dle":
@@ -246,7 +248,7 @@ def render(ops, srcs, prog, beta: Beta, imp: bool, rng: random.Random, placement
             refl = rng.random() < 0.5
             site = f"s{s['site']}()"
             xe = None
-            if mutate and s["op"] not in ("none", "chg", "raise", "lebot", "gebot", "eqbad", "inbad"):
+            if mutate and s["op"] not in ("none", "chg", "raise", "lebot", "gebot", "eqbad", "inbad", "dget"):
                 out.append(f"    _set(_o, {mval(s['x'])!r})\n")
                 xe = '("t", _o)' if tup else "_o"
             if placement == "param" and s["op"] not in ("none", "chg", "raise"):
@@ -254,7 +256,7 @@ def render(ops, srcs, prog, beta: Beta, imp: bool, rng: random.Random, placement
             else:
                 e = stmt_expr(beta, s, site, refl, xe)
             out.append(f"    with _r.at({ti}, {j}):\n")
-            if s["op"] == "none":
+            if s["op"] in ("none", "dget"):
                 out.append(f"        {e}\n")
             elif s["op"] == "raise":
                 out.append("        raise ValueError('raised by the test itself')\n")
@@ -265,7 +267,7 @@ def render(ops, srcs, prog, beta: Beta, imp: bool, rng: random.Random, placement
                 out.append(f"        assert {e}\n")
             else:
                 out.append(f"        _r.val({e})\n")
-            if mutate and s["op"] not in ("none", "chg", "raise", "lebot", "gebot", "eqbad", "inbad"):
+            if mutate and s["op"] not in ("none", "chg", "raise", "lebot", "gebot", "eqbad", "inbad", "dget"):
                 # mutate the object that was just compared (the next comparison sets it again)
                 out.append(f"    _set(_o, {mval((s['x'] + 1) % len(beta.atoms))!r})\n")
         out.append("\n\n")
